@@ -102,7 +102,11 @@ impl JulianDay {
     }
     if hour > 23 {
       hour -= 24;
-      day += 1
+      // 进位到下一天，可能跨月、跨年
+      let next: SolarDay = SolarDay::from_ymd(year, month as usize, day as usize).next(1);
+      year = next.get_year();
+      month = next.get_month() as isize;
+      day = next.get_day() as isize;
     }
     SolarTime::from_ymd_hms(year, month as usize, day as usize, hour as usize, minute as usize, second as usize)
   }
